@@ -270,6 +270,13 @@ def run_controller(env, cfg, with_stop=True):
 
 def nfold(r, n):
     u = r["u0"]
+    if r["solver"] == "adams-bashforth":
+        dt, a, c = r["dt"], r["a"], r["c"]
+        f = lambda x: a * x + c  # noqa: E731
+        prev = u - dt * f(u)  # the solver's documented bootstrap: backward Euler estimate
+        for _ in range(n):
+            u, prev = u + dt * (1.5 * f(u) - 0.5 * f(prev)), u
+        return u
     for _ in range(n):
         u = one_step(r["solver"], u, r["dt"], r["a"], r["c"])
     return u
